@@ -674,6 +674,30 @@ func c09historyCase(c *vf.Ctx, i int) {
 			h.cur, h.inserted = nil, nil
 			c.Inc("op_unload")
 			hsh = vf.Mix(hsh, 6)
+		case op >= 95 && op < 97 && h.m.Loaded && h.cur != nil:
+			// a SECOND Filter object over the same message (a peer handler that
+			// wraps the stored filterload again): what one object inserts, the
+			// other must report, because the bits live in the shared message
+			var g *bloom.Filter
+			cur := h.cur
+			step = "second Filter object over the same message"
+			h.log = append(h.log, step)
+			if !h.call("LoadFilter", func() { g = bloom.LoadFilter(cur) }) {
+				break
+			}
+			for k := 1 + r.Intn(3); k > 0 && !h.dead; k-- {
+				it := c09item(r)
+				step = fmt.Sprintf("twin.Add(%x)", it)
+				h.log = append(h.log, step)
+				arg := append([]byte{}, it...)
+				h.call("Add", func() { g.Add(arg) })
+				h.m.Add(it)
+				h.inserted = append(h.inserted, &c09ins{kind: 0, item: it})
+				h.verify(step) // queries go through the first object
+			}
+			c.Inc("op_second_filter_object_over_same_message")
+			hsh = vf.Mix(hsh, 8)
+			step = "twin"
 		case op >= 97 && h.m.Loaded && h.cur != nil:
 			// the caller rewrites its message struct in place (as a peer
 			// handler decoding the next filterload into the same struct would)
